@@ -3,7 +3,7 @@
 From Coq Require Import String Ascii List NArith ZArith QArith Bool Lia.
 From Sylt Require Import Syntax.Resolved.
 From Sylt Require Sem.Values Sem.Runtime Sem.SyltSem.
-From Sylt Require Import Pres.Frag Pres.SimExpr Pres.LowerShape Pres.SimExprProofs Pres.SimStmt Pres.NoExit.
+From Sylt Require Import Pres.Frag Pres.SimExpr Pres.LowerShape Pres.SimExprProofs Pres.NoExit.
 Import ListNotations.
 
 Definition noret {A} (r : SyltSem.res A) : Prop :=
@@ -27,15 +27,16 @@ Section NoRet.
 Variable pv : N.
 Variable sv : N.
 Variable bound : N.
+Variable fl : list (N * nat).
 
 Definition NR_eval (n : nat) : Prop :=
-  forall k sc e x st r st', frag_expr pv sv bound k sc x = true -> SyltSem.eval n e x st = (r, st') -> noret r.
+  forall k sc e x st r st', frag_expr pv sv bound fl k sc x = true -> SyltSem.eval n e x st = (r, st') -> noret r.
 Definition NR_exec (n : nat) : Prop :=
-  forall k sc sc' e s st r st', frag_stmt pv sv bound k sc s = Some sc' -> SyltSem.exec n e s st = (r, st') -> noret r.
+  forall k sc sc' e s st r st', frag_stmt pv sv bound fl k sc s = Some sc' -> SyltSem.exec n e s st = (r, st') -> noret r.
 Definition NR_execs (n : nat) : Prop :=
-  forall k sc sc' e ss st r st', frag_stmts pv sv bound k sc ss = Some sc' -> SyltSem.exec_block n e ss st = (r, st') -> noret r.
+  forall k sc sc' e ss st r st', frag_stmts pv sv bound fl k sc ss = Some sc' -> SyltSem.exec_block n e ss st = (r, st') -> noret r.
 Definition NR_bv (n : nat) : Prop :=
-  forall k sc sc' e ss st r st', frag_stmts pv sv bound k sc ss = Some sc' -> SyltSem.block_value n e ss st = (r, st') -> noret r.
+  forall k sc sc' e ss st r st', frag_stmts pv sv bound fl k sc ss = Some sc' -> SyltSem.block_value n e ss st = (r, st') -> noret r.
 
 Ltac leaf := intros; apply noab_noret;
   first [ eapply noab_truth; eassumption | eapply noab_snapshot; eassumption | eapply noab_binop_val; eassumption
@@ -50,17 +51,24 @@ Proof.
     cbn [SyltSem.eval] in Hev.
     destruct (SyltSem.lookup e var); [|inversion Hev; subst; exact I].
     unfold SyltSem.read_cell in Hev. destruct (nth_error (SyltSem.cells st) n0); inversion Hev; subst; exact I.
-  - (* ECall print *)
+  - (* ECall *)
     cbn [SyltSem.eval] in Hev.
-    destruct x; try discriminate Hf. destruct args as [|a [|? ?]]; try discriminate Hf.
-    frag_split Hf.
+    destruct x; try discriminate Hf.
+    assert (Hargs : forallb (frag_expr pv sv bound fl k sc) args = true).
+    { destruct (var =? pv)%N.
+      - destruct args as [|a [|? ?]]; try discriminate Hf. frag_split Hf. cbn [forallb]. rewrite Hfr. reflexivity.
+      - destruct (fun_arity fl var); [|discriminate Hf]. frag_split Hf. exact Hfr. }
+    clear Hf.
     eapply noret_bind; [exact Hev | |].
     + intros a0 st1 H. destruct n as [|n']; [cbn in H; inversion H; subst; exact I|]. cbn [SyltSem.eval] in H.
       destruct (SyltSem.lookup e var); [|inversion H; subst; exact I].
       unfold SyltSem.read_cell in H. destruct (nth_error (SyltSem.cells st) n); inversion H; subst; exact I.
     + intros fv st1 _ H. eapply noret_bind; [exact H | |].
-      * intros a0 st2 H'. rewrite smapM_one in H'. destruct (SyltSem.eval n e a st1) as [[y|o|c] st3] eqn:Ea; inversion H'; subst; try exact I.
-        apply (IH k sc e a st1 _ _ Hfr Ea).
+      * clear H Hev. revert st1. induction args as [|a args IHa]; intros st1 a0 st2 H'; cbn [SyltSem.mapM] in H'.
+        -- inversion H'; subst; exact I.
+        -- cbn [forallb] in Hargs. apply andb_prop in Hargs as [Hfa Hfs].
+           eapply noret_bind; [exact H' | intros; eapply IH; eassumption |]. intros y st3 _ H3.
+           eapply noret_bind; [exact H3 | intros; eapply IHa; eassumption |]. intros ys st4 _ H4. inversion H4; subst; exact I.
       * leaf.
   - (* EBinOp *)
     cbn [SyltSem.eval] in Hev. frag_split Hf.
@@ -85,18 +93,18 @@ Proof.
       eapply noret_bind; [exact H2 | leaf |]. intros rv st3 _ H3. inversion H3; subst; exact I.
     + eapply noret_bind; [exact H1 | leaf |]. intros ba st2 _ H2. inversion H2; subst; exact I.
   - (* EIf *)
-    change (frag_branches pv sv bound k sc branches = true) in Hf.
+    change (frag_branches pv sv bound fl k sc branches = true) in Hf.
     rewrite seval_if in Hev. clear sp.
     revert k st Hf Hev. induction branches as [|[[cond|] body bsp] brs IHbrs]; intros k st Hf Hev.
     + cbn in Hev. inversion Hev; subst; exact I.
     + destruct k as [|k]; [discriminate|]. rewrite frag_branches_some in Hf. frag_split Hf.
-      destruct (frag_stmts pv sv bound k sc body) as [scb|] eqn:Hfb; [|discriminate Hfr0].
+      destruct (frag_stmts pv sv bound fl k sc body) as [scb|] eqn:Hfb; [|discriminate Hfr0].
       cbn [if_go] in Hev.
       eapply noret_bind; [exact Hev | intros; eapply IH; eassumption |]. intros c st1 _ H1.
       eapply noret_bind; [exact H1 | leaf |]. intros bc st2 _ H2. cbv beta in H2.
       destruct bc; [eapply IHb; eassumption | eapply IHbrs; eassumption].
     + destruct k as [|k]; [discriminate|]. rewrite frag_branches_none in Hf. destruct brs; [|discriminate Hf].
-      destruct (frag_stmts pv sv bound k sc body) as [scb|] eqn:Hfb; [|discriminate Hf].
+      destruct (frag_stmts pv sv bound fl k sc body) as [scb|] eqn:Hfb; [|discriminate Hf].
       cbn [if_go] in Hev. eapply IHb; eassumption.
   - cbn [SyltSem.eval] in Hev. inversion Hev; subst; exact I.
   - cbn [SyltSem.eval] in Hev. inversion Hev; subst; exact I.
@@ -109,7 +117,7 @@ Proof.
   destruct s; try discriminate Hf.
   - (* SAssignment *)
     destruct target; try discriminate Hf. rewrite frag_stmt_assign in Hf.
-    destruct (assign_op op && memN var sc && frag_expr pv sv bound k sc value)%bool eqn:Hc; [|discriminate Hf]. frag_split Hc.
+    destruct (assign_op op && memN var sc && frag_expr pv sv bound fl k sc value)%bool eqn:Hc; [|discriminate Hf]. frag_split Hc.
     cbn [SyltSem.exec] in Hev. destruct (SyltSem.lookup e var) as [cv|]; [|inversion Hev; subst; exact I].
     eapply noret_bind; [exact Hev | intros; eapply IHe; eassumption |]. intros nv st1 _ H1.
     eapply noret_bind; [exact H1 | |].
@@ -122,15 +130,15 @@ Proof.
     + intros rr st2 _ H2. eapply noret_bind; [exact H2 | intros ? ? Hw; inversion Hw; subst; exact I |].
       intros ? st3 _ H3. inversion H3; subst; exact I.
   - (* SDefinition *)
-    destruct (frag_stmt_def _ _ _ _ _ _ _ _ _ _ _ _ Hf) as (_ & _ & Hfe & _).
+    destruct (frag_stmt_def _ _ _ _ _ _ _ _ _ _ _ _ _ Hf) as (_ & _ & Hfe & _).
     cbn [SyltSem.exec] in Hev.
     eapply noret_bind; [exact Hev | intros ? ? Hn; inversion Hn; subst; exact I |]. intros c st1 _ H1.
     eapply noret_bind; [exact H1 | intros; eapply IHe; eassumption |]. intros v st2 _ H2.
     eapply noret_bind; [exact H2 | intros ? ? Hn; inversion Hn; subst; exact I |]. intros ? st3 _ H3. inversion H3; subst; exact I.
   - (* SLoop *)
     rewrite frag_stmt_loop in Hf.
-    destruct (noexit_expr k condition && frag_expr pv sv bound k sc condition && is_some (frag_stmts pv sv bound k sc body))%bool eqn:Hc; [|discriminate Hf].
-    frag_split Hc. destruct (frag_stmts pv sv bound k sc body) as [scb|] eqn:Hfb; [|discriminate Hfr].
+    destruct (noexit_expr k condition && frag_expr pv sv bound fl k sc condition && is_some (frag_stmts pv sv bound fl k sc body))%bool eqn:Hc; [|discriminate Hf].
+    frag_split Hc. destruct (frag_stmts pv sv bound fl k sc body) as [scb|] eqn:Hfb; [|discriminate Hfr].
     rewrite exec_loop_eq in Hev. generalize dependent st. generalize n at 2.
     induction n0 as [|m IHm]; intros st Hev.
     + cbn in Hev. inversion Hev; subst; exact I.
@@ -147,11 +155,11 @@ Proof.
   - (* SBreak *) cbn in Hev. inversion Hev; subst; exact I.
   - (* SContinue *) cbn in Hev. inversion Hev; subst; exact I.
   - (* SBlock *)
-    rewrite frag_stmt_block in Hf. destruct (frag_stmts pv sv bound k sc statements) eqn:Hs; [|discriminate Hf].
+    rewrite frag_stmt_block in Hf. destruct (frag_stmts pv sv bound fl k sc statements) eqn:Hs; [|discriminate Hf].
     cbn [SyltSem.exec] in Hev.
     eapply noret_bind; [exact Hev | intros; eapply IHss; eassumption |]. intros ? st1 _ H1. inversion H1; subst; exact I.
   - (* SStatementExpression *)
-    rewrite frag_stmt_sexpr in Hf. destruct (frag_expr pv sv bound k sc value) eqn:Hfe; [|discriminate Hf].
+    rewrite frag_stmt_sexpr in Hf. destruct (frag_expr pv sv bound fl k sc value) eqn:Hfe; [|discriminate Hf].
     cbn [SyltSem.exec] in Hev.
     eapply noret_bind; [exact Hev | intros; eapply IHe; eassumption |]. intros ? st1 _ H1. inversion H1; subst; exact I.
 Qed.
@@ -161,7 +169,7 @@ Proof.
   intros IH1 IH2 k sc sc' e ss st r st' Hf Hev.
   destruct ss as [|s ss]; cbn [SyltSem.exec_block] in Hev; [inversion Hev; subst; exact I|].
   destruct k as [|k]; [discriminate|]. rewrite frag_stmts_cons in Hf.
-  destruct (frag_stmt pv sv bound k sc s) as [sc1|] eqn:Hs; [|discriminate Hf].
+  destruct (frag_stmt pv sv bound fl k sc s) as [sc1|] eqn:Hs; [|discriminate Hf].
   eapply noret_bind; [exact Hev | intros; eapply IH1; eassumption |]. intros e1 st1 _ H1. cbv beta in H1.
   exact (IH2 k sc1 sc' e1 ss st1 r st' Hf H1).
 Qed.
@@ -174,9 +182,9 @@ Proof.
   destruct (rev body) as [|last init_rev] eqn:Hrev; [apply Hdefault; exact Hev|].
   assert (Hbody : body = rev init_rev ++ [last]) by (rewrite <- (rev_involutive body), Hrev; reflexivity).
   destruct last; try (apply Hdefault; exact Hev).
-  rewrite Hbody in Hf. destruct (frag_stmts_app pv sv bound _ _ _ _ _ Hf) as (sc1 & k' & Hfi & Hfl).
+  rewrite Hbody in Hf. destruct (frag_stmts_app pv sv bound fl _ _ _ _ _ Hf) as (sc1 & k' & Hfi & Hfl).
   destruct k' as [|k']; [discriminate|]. rewrite frag_stmts_cons in Hfl.
-  destruct k' as [|k'']; [discriminate|]. rewrite frag_stmt_sexpr in Hfl. destruct (frag_expr pv sv bound k'' sc1 value) eqn:Hfe; [|discriminate Hfl].
+  destruct k' as [|k'']; [discriminate|]. rewrite frag_stmt_sexpr in Hfl. destruct (frag_expr pv sv bound fl k'' sc1 value) eqn:Hfe; [|discriminate Hfl].
   eapply noret_bind; [exact Hev | |].
   - intros a0 st1 H. exact (IHss k sc sc1 e _ st a0 st1 Hfi H).
   - intros e1 st1 _ H1. cbv beta in H1. exact (IHe k'' sc1 e1 value st1 r st' Hfe H1).
